@@ -123,7 +123,15 @@ class C09(Prop):
                         out.append(V(pid, "C09/previous-instance-has-pending-work", "pending=%d" % old["pending"]))
                     alive = [p for p in old["registered"] if res.kernel.procs[p].death is None or res.kernel.procs[p].death > e["now"]]
                     if alive:
-                        out.append(V(pid, "C09/previous-workers-alive", "workers %r of the previous instance alive at return" % alive))
+                        # workers that a racing _resize of another thread spawned into the instance after a
+                        # user's shutdown() of it had begun (the F9 family) are told apart
+                        prev_n = [n for n, i in res.obs.executors.items() if i["executor_id"] == r["prev"]["id"]]
+                        t_sd = [c["now"] for c in res.obs.events if c["op"] in ("shutdown", "with") and c["phase"] == "call"
+                                and any(x["phase"] == "ret" and x["thread"] == c["thread"] and x["i"] == c["i"]
+                                        and (x.get("r") or {}).get("exn") in prev_n for x in res.obs.events)]
+                        late = bool(t_sd) and all(res.kernel.procs[p].birth >= min(t_sd) - 1e-9 for p in alive)
+                        out.append(V(pid, "C09/previous-workers-alive%s" % ("/spawned-after-user-shutdown" if late else ""),
+                                     "workers %r of the previous instance alive at return" % alive))
             if single:
                 prev = r["prev"]
                 exp_same = None
